@@ -4,6 +4,7 @@
 #define NV_DUMP_MORE_H
 void dump_more_cond();
 void dump_more_memory();
+void dump_more_msp430asm();
 void dump_more_msp430dis();
 void dump_more_riscv();
 void dump_more_simtables();
@@ -18,6 +19,7 @@ static void dump_more()
 {
   dump_more_cond();
   dump_more_memory();
+  dump_more_msp430asm();
   dump_more_msp430dis();
   dump_more_riscv();
   dump_more_simtables();
